@@ -87,7 +87,7 @@ Assignable(o, t) == CASE o.k \in {"var", "tconst"} -> o.ty = t \/ t = "any"
                       [] OTHER -> FALSE
 
 (* ---- results ---- *)
-\* cv: <<>> not constant | <<"num", n, d>> | <<"str", len>> | <<"cplx", rn, rd, imag>>;  ut: the result is an untyped constant
+\* cv: <<>> not constant | <<"num", n, d>> | <<"str", len>> | <<"cplx", rn, rd, in, id>> | <<"p2m", w, k>> = 2^w - k;  ut: the result is an untyped constant
 \* (ty is then the default type)
 Err(w) == [ok |-> FALSE, why |-> w, ty |-> "", cv |-> <<>>, ut |-> FALSE]
 Ok(t) == [ok |-> TRUE, why |-> "", ty |-> t, cv |-> <<>>, ut |-> FALSE]
@@ -197,6 +197,13 @@ Unsafe(fn, x) ==
 Field(f) == Op("vS." \o f, "field", CASE f = "a" -> "int8" [] f = "b" -> "int64" [] OTHER -> "string", "", CASE f = "a" -> 0 [] f = "b" -> 8 [] OTHER -> 16, 1)
 UnsafeField(fn, x) == OkC("uintptr", <<"num", CASE fn = "Offsetof" -> x.n [] fn = "Sizeof" -> (CASE x.ty = "int8" -> 1 [] x.ty = "int64" -> 8 [] OTHER -> 16) [] OTHER -> (IF x.ty = "int8" THEN 1 ELSE 8), 1>>, FALSE)
 
+(* ---- ^x of an unsigned typed constant: the complement within the width of the type (2^w - 1 - x, written 2^w - (x + 1)) ---- *)
+\* operands [src, "uconst", type, "int", value, width]; unsafe.Sizeof and friends are uintptr constants
+UC(src, t, w, n) == Op(src, "uconst", t, "int", n, w)
+UConsts == {UC("uint8(1)", "uint8", 8, 1), UC("uint16(1)", "uint16", 16, 1), UC("uint32(5)", "uint32", 32, 5), UC("uint64(1)", "uint64", 64, 1),
+            UC("uint(0)", "uint", 64, 0), UC("uintptr(1)", "uintptr", 64, 1), UC("unsafe.Sizeof(vi)", "uintptr", 64, 8), UC("unsafe.Alignof(vi8)", "uintptr", 64, 1)}
+Compl(x) == OkC(x.ty, <<"p2m", x.d, x.n + 1>>, FALSE)
+
 (* ---- the grid ---- *)
 RECURSIVE SeqsUpTo(_, _)
 SeqsUpTo(A, n) == IF n = 0 THEN {<<>>} ELSE LET shorter == SeqsUpTo(A, n - 1) IN shorter \cup {Append(q, x) : q \in {r \in shorter : Len(r) = n - 1}, x \in A}
@@ -224,6 +231,7 @@ Points ==
   \cup {P("panic", <<x>>, FALSE) : x \in {c1, cs, Nil, vi, va}}
   \cup {P(fn, <<x>>, FALSE) : fn \in {"Sizeof", "Alignof"}, x \in Vars \cup {c1, cf, cs, k8, kf}}
   \cup {P(fn, <<Field(f)>>, FALSE) : fn \in {"Sizeof", "Alignof", "Offsetof"}, f \in {"a", "b", "c"}}
+  \cup {P("compl", <<x>>, FALSE) : x \in UConsts}
 VARIABLE pt
 Init == pt \in Points
 Next == UNCHANGED pt
@@ -240,6 +248,7 @@ Res == LET a == pt.args IN
          [] pt.fn = "clear" -> Clear(a[1])
          [] pt.fn = "close" -> Close(a[1])
          [] pt.fn = "panic" -> Panic(a[1])
+         [] pt.fn = "compl" -> Compl(a[1])
          [] a[1].k = "field" -> UnsafeField(pt.fn, a[1])
          [] OTHER -> Unsafe(pt.fn, a[1])
 \* laws: a constant result needs constant operands (len / cap of arrays and the unsafe functions excepted); min <= max;
